@@ -263,6 +263,15 @@ struct DomExec {
     }
   }
 
+  // bulk insertions: up to 48 elements normally, 1800 in "big" plans; in "huge" plans (big=2) the first bulk op may
+  // add up to 72000 (container sizes across 65536), the later ones stay small to bound the cost of the walks
+  bool huge_used = false;
+  size_t bulk_count(int64_t a) {
+    int64_t big = plan.K("big", 0);
+    if (big == 2 && !huge_used && (uint64_t)a >= 50000) { huge_used = true; probe("bulk_insertion_beyond_65536"); return (size_t)((uint64_t)a % 72001); }
+    return (size_t)((uint64_t)a % (big == 1 ? 1800 : 48)) + 1;
+  }
+
   // ---- op execution
   void run() {
     for (int i = 0; i < NSLOT; i++) { slots[i].flavour = i % 3; }
@@ -687,7 +696,7 @@ struct DomExec {
     }
     if (k == "PushBackN") {   // bulk growth: capacity 16 -> 24 -> 36 -> 54
       if (m.k != JVal::Arr) return false;
-      size_t cnt = (size_t)((uint64_t)op.A(1) % (plan.K("big", 0) ? 1800 : 48)) + 1;
+      size_t cnt = bulk_count(op.A(1));
       for (size_t i = 0; i < cnt; i++) {
         JVal v = (i % 5 == 4) ? JVal::str("e" + std::to_string(i)) : JVal::uint(i * 3 + 1);
         N tmp; build(tmp, v, alloc, bc);
@@ -698,7 +707,7 @@ struct DomExec {
     }
     if (k == "AddMemberN") {
       if (m.k != JVal::Obj) return false;
-      size_t cnt = (size_t)((uint64_t)op.A(1) % (plan.K("big", 0) ? 1800 : 48)) + 1;
+      size_t cnt = bulk_count(op.A(1));
       for (size_t i = 0; i < cnt; i++) {
         std::string key = "n" + std::to_string(cur_op) + "_" + std::to_string(i);
         JVal v = (i % 4 == 3) ? JVal::str("v" + std::to_string(i)) : JVal::sint((int64_t)i - 7);
